@@ -159,7 +159,7 @@ def count_internal(n):
     return 0 if not n["children"] else 1 + sum(count_internal(c) for c in n["children"])
 
 
-def rand_alignment(rng, kind, motifs, tree, ncols, ambig_rate=0.12, gap_rate=0.08, dup_rate=0.3):
+def rand_alignment(rng, kind, motifs, tree, ncols, ambig_rate=0.12, gap_rate=0.08, dup_rate=0.3, gaps=True):
     """{tip: string}; columns evolve down the tree (so patterns repeat), then ambiguity codes and
     gaps are sprinkled in and some columns are duplicated"""
     tips = tree_tips(tree)
@@ -185,7 +185,9 @@ def rand_alignment(rng, kind, motifs, tree, ncols, ambig_rate=0.12, gap_rate=0.0
         go(tree, rng.choice(motifs))
         for t in tips:
             r = rng.random()
-            if r < gap_rate:
+            if r < gap_rate and not gaps:
+                col[t] = "?" * mlen
+            elif r < gap_rate:
                 col[t] = rng.choice(["-" * mlen, "?" * mlen]) if mlen == 1 or rng.random() < 0.7 else _partial_gap(rng, col[t])
             elif r < gap_rate + ambig_rate:
                 for _ in range(10):
@@ -223,7 +225,7 @@ def rand_problem(rng, name, ntips=None, ncols=None, bins=None, new_type=None, sc
     motifs = [str(m) for m in sm.get_alphabet()]
     if ncols is None:
         ncols = rng.randint(4, 24) if kind in ("nucleotide", "dinucleotide") else rng.randint(3, 10)
-    seqs = rand_alignment(rng, kind, motifs, tree, ncols)
+    seqs = rand_alignment(rng, kind, motifs, tree, ncols, gaps=name not in DISCRETE)
     spec = dict(
         model=name, kind=kind, newick=newick(tree), tree=tree, seqs=seqs,
         moltype="protein" if kind == "protein" else "dna",
